@@ -139,7 +139,7 @@ P_C11(pre, e) ==
 \* (an asynchronous placement is picked up - bet id and status - from the order stream, which may
 \* overtake a retry that the exchange de-duplicates by customer reference)
 InFlightOk(o, kind) == \/ o.status = InFlightOf(kind)
-                       \/ (kind = "PLACE" /\ o.async /\ o.bet /\ o.status \in {"EXECUTABLE", "COMPLETE"})
+                       \/ (kind = "PLACE" /\ o.async /\ o.bet)     \* picked up: the order leads its own life from then on
 P_C03L(pre, e) ==
     /\ Ck("C03", "LegalTransition", IllegalTransitions(e) = {}, {e.trans[i] : i \in IllegalTransitions(e)})
     \* live mode: complete is final; the local copy of the matched size may still catch up with the
